@@ -147,6 +147,46 @@ def run_case(case, ctx):
         # fault injection at the registration function: a rule it must reject (pattern that matches '', two adjacent
         # patterns) is rejected AND leaves the rule base exactly as it was
         snap = (dict(R._regex_str), dict(R._str_regex), sorted(R._regex), list(R.rules), R._regex_cnt)
+
+        def restore():
+            R._regex_str.clear(); R._regex_str.update(snap[0]); R._str_regex.clear(); R._str_regex.update(snap[1])
+            for k_ in list(R._regex):
+                if k_ not in snap[2]:
+                    del R._regex[k_]
+            for k_ in list(R.rules):
+                if k_ not in snap[3]:
+                    del R.rules[k_]
+            R._regex_cnt = snap[4]
+
+        # ... and sound rules it must accept: the SAME pattern text used by two new rules (and a shipped text used by a
+        # new rule) gets ONE identifier, whatever characters the text contains; the text <-> id tables stay inverse
+        shipped_upper = sorted(t for t in snap[1] if t != t.lower())[:2] + sorted(t for t in snap[1] if t == t.lower())[:1]
+        fresh = [r"zzqd\d+", r"(?P<zzqe>ZZQE\D+)", r"Zzqf\S+x", r"zzqg\D+", r"zzqg\d+", r"\bZZQH\b"]
+        for ti, text in enumerate(fresh + shipped_upper):
+            ids = []
+            for rep in range(2):
+                mon.events["accepted_registration_attempt"] += 1
+
+                def probe_rule(ts, *a):
+                    return None
+                probe_rule.__name__ = "ruleVfProbe%d_%d" % (ti, rep)
+                try:
+                    R.rule(text, R.dimension(L.Time))(probe_rule)
+                except Exception as e:  # noqa
+                    probs.append(("registration-raises-unexpectedly", "rule(%r, Time): %s: %s" % (text, type(e).__name__, e)))
+                    break
+                i = R._str_regex.get(text)
+                if i is None or R._regex_str.get(i) != text:
+                    probs.append(("pattern-text-id-tables-inconsistent", "after rule(%r, ...): text -> %r -> %r" % (text, i, R._regex_str.get(i))))
+                    break
+                ids.append(i)
+            if len(set(ids)) > 1:
+                probs.append(("same-pattern-text-two-identifiers", "pattern text %r registered twice got the identifiers %s" % (text, ids)))
+            if text in snap[1] and ids and ids[0] != snap[1][text]:
+                probs.append(("same-pattern-text-two-identifiers", "shipped pattern text %r (id %s) re-used by a new rule got %s" % (text, snap[1][text], ids)))
+            if {v: k_ for k_, v in R._str_regex.items()} != dict(R._regex_str):
+                probs.append(("pattern-id-not-bijective", "tables not inverse after registering %r" % text))
+        restore()
         for bi, bad in enumerate(((r"(zzqq|zzqw)?\s*", R.dimension(L.Time)), (r"(?=zzqq)", R.dimension(L.Time)), ("zzqa", "zzqb"), (R.dimension(L.Time), r"(zzqc)*"))):
             mon.events["rejected_registration_attempt"] += 1
             try:
@@ -167,14 +207,7 @@ def run_case(case, ctx):
                 else:
                     probs.append(("rejected-registration-left-traces", "after the rejected rule(%r) the tables differ: ids %s -> %s" % (bad, snap[2][-2:], now[2][-2:])))
                 # restore, so that the rest of this worker sees the shipped rule base
-                R._regex_str.clear(); R._regex_str.update(snap[0]); R._str_regex.clear(); R._str_regex.update(snap[1])
-                for k_ in list(R._regex):
-                    if k_ not in snap[2]:
-                        del R._regex[k_]
-                for k_ in list(R.rules):
-                    if k_ not in snap[3]:
-                        del R.rules[k_]
-                R._regex_cnt = snap[4]
+                restore()
         if probs:
             return C.viol("structure/" + probs[0][0], "%d problems: %s" % (len(probs), probs[:4]), "structure", "structure")
         return C.ok("structure", "structure", nt=True, obs_={"rules": len(L.registry), "patterns": len(R._regex), "probe_texts": len(probes)})
